@@ -95,9 +95,13 @@ def one_case(rec, tap, rng, cid):
     if nelder:
         kw["method"] = "nelder"
         kw["weight_cp"] = wcp = 0.0
+    # the parameters are handed over with a first call that cannot be
+    # carried out (interval without data); the fit proper follows without
+    # them: the stored guess is still the caller's, in measured units
+    failed_first = bool(rng.random() < .2)
     case = {"id": cid, "spec": spec, "k": k, "mode": mode, "settings": kw,
             "cp_user": cp_user, "cp_bounds": cp_bounds, "cp_fixed": cp_fixed,
-            "nelder": nelder}
+            "nelder": nelder, "failed_first": failed_first}
     res = {}
     for kk in (k, 1.0):
         idnt, _ = fitlab.build_curve(spec)
@@ -114,7 +118,23 @@ def one_case(rec, tap, rng, cid):
             rec.event("fits with the contact point held fixed")
         tap.clear()
         try:
-            idnt.fit_model(params_initial=p0, gcf_k=kk, **copy.deepcopy(kw))
+            if failed_first:
+                rec.event("fits whose parameters came with an earlier call "
+                          "that could not be carried out")
+                kw1 = dict(copy.deepcopy(kw), range_type="absolute",
+                           range_x=[1.0, 2.0], optimal_fit_edelta=False)
+                try:
+                    idnt.fit_model(params_initial=p0, gcf_k=kk, **kw1)
+                except BaseException:  # noqa
+                    pass
+                tap.clear()
+                kw2 = dict({"range_type": "absolute", "range_x": [0, 0],
+                            "optimal_fit_edelta": False},
+                           **copy.deepcopy(kw))
+                idnt.fit_model(gcf_k=kk, **kw2)
+            else:
+                idnt.fit_model(params_initial=p0, gcf_k=kk,
+                               **copy.deepcopy(kw))
         except BaseException as e:  # noqa
             res[kk] = ("exc", type(e).__name__)
             continue
